@@ -197,6 +197,17 @@ class G:
             d['conclusions'] = [self.block(1) for _ in range(rng.randint(1, 2))]
         if rng.random() < 0.4:
             d['attachments'] = [self.attachment() for _ in range(rng.randint(1, 3))]
+        # the first line of an *indented* container body may be ordinary text that happens to start with an attachment keyword
+        # ("SCHEDULE of hearings ..."): indented, it is a paragraph like any other
+        def keywordish(items):
+            if items and items[0][0] == 'p' and not items[0][1] and isinstance(items[0][2][0], str) and rng.random() < 0.3:
+                kw = rng.choice(gen.ATTACH)
+                items[0] = ('p', items[0][1], [kw + ' of ' + items[0][2][0]] + list(items[0][2][1:]))
+        if d['parts'] is not None:
+            for _, items in d['parts']:
+                keywordish(items)
+        elif root != 'debate' and (d['preface'] is not None or d['preamble'] is not None):
+            keywordish(d['body'])
         return d
 
 
